@@ -431,6 +431,10 @@ package spdxexp
 //@ lemma[C06,C07,thorough] reconInjectiveRefRef: forall a Tree, b Tree {wfLeaf(a), wfLeaf(b)} :: isTRef(a) && isTRef(b) && wfLeafTs(a) && wfLeafTs(b) && reconT(a) == reconT(b) ==> a == b
 //@ lemma[C06,C07,thorough] reconInjectiveLicRef: forall a Tree, b Tree {wfLeaf(a), wfLeaf(b)} :: isTLic(a) && isTRef(b) && wfLeafTs(a) && wfLeafTs(b) ==> reconT(a) != reconT(b)
 //@ lemma[C06,C07] reconInjective: forall a Tree, b Tree {wfLeaf(a), wfLeaf(b)} :: wfLeaf(a) && wfLeaf(b) && reconT(a) == reconT(b) ==> a == b
+// Two ids at the same position of the family table (X and X-only, X+ and X-or-later after normalisation) are
+// interchangeable in the rule, on either side (C08; the table hypothesis "they share a position" is ground-evaluated).
+//@ pred sameSlot(x string, y string) = InT(simp(x)) && InT(simp(y)) && Fam(simp(x)) == Fam(simp(y)) && Ver(simp(x)) == Ver(simp(y))
+//@ lemma[C08] sameSlotInterchangeable: forall a Tree, a2 Tree, b Tree :: isTLic(a) && isTLic(a2) && tlPlus(a) == tlPlus(a2) && tlHasExc(a) == tlHasExc(a2) && tlExc(a) == tlExc(a2) && sameSlot(tlId(a), tlId(a2)) ==> (licMatch(a, b) <==> licMatch(a2, b)) && (licMatch(b, a) <==> licMatch(b, a2))
 //@ lemma[C02,C11] plusStaysInFamily: forall a Tree, b Tree :: licMatch(a, b) && tlId(a) != tlId(b) ==> sameFam(tlId(a), tlId(b))
 //@ lemma[C11] plusReachesLaterVersions: forall a Tree, b Tree :: isTLic(a) && isTLic(b) && excOK(a, b) && tlPlus(a) && !tlPlus(b) && sameFam(tlId(a), tlId(b)) ==> (licMatch(a, b) <==> (tlId(a) == tlId(b) || Ver(simp(tlId(b))) >= Ver(simp(tlId(a)))))
 
